@@ -33,6 +33,9 @@ pub struct Universe {
     pub hist_decl: Vec<Vec<String>>,
     /// enums with their one-variant extensions: (base, extended, decl index of the new variant in extended)
     pub enum_ext: Vec<(String, String, usize)>,
+    /// evolution of one enum constructor: `variant_hist[i] = (history index, [enum decl per version])`;
+    /// the enum is `{ Zed = declaration of the history at that version, Mid(u8) }`
+    pub variant_hist: Vec<(usize, Vec<String>)>,
 }
 
 fn fld(name: &str, ty: Ty) -> FieldDescr {
@@ -228,6 +231,10 @@ pub enum VKind {
     StructEvolved,
     TupleEvolved,
     Transient,
+    /// tuple variant whose first field is transient: (#[transient(77)] u8, String)
+    TupleTransientFirst,
+    /// struct variant with a transient field between two serialized ones
+    StructTransientMid,
 }
 
 pub fn variant(kind: VKind, name: &str) -> VariantDescr {
@@ -267,6 +274,16 @@ pub fn variant(kind: VKind, name: &str) -> VariantDescr {
             }
         }
         VKind::Transient => VariantDescr { name: name.into(), transient: true, shape: 0, record: r(vec![], vec![]) },
+        VKind::TupleTransientFirst => {
+            let mut t = fld("field0", Ty::U8);
+            t.transient = Some(Val::U(77));
+            VariantDescr { name: name.into(), transient: false, shape: 1, record: r(vec![], vec![t, fld("field1", Ty::Str), fld("field2", Ty::U16)]) }
+        }
+        VKind::StructTransientMid => {
+            let mut t = fld("b", opt(Ty::Str));
+            t.transient = Some(Val::some(Val::s("<transient>")));
+            VariantDescr { name: name.into(), transient: false, shape: 2, record: r(vec![], vec![fld("a", Ty::U8), t, fld("c", Ty::Str)]) }
+        }
     }
 }
 
@@ -297,7 +314,17 @@ pub fn extend_enum(base: &EnumDescr, new_name: &str, kind: VKind) -> (EnumDescr,
 }
 
 fn enums(out: &mut Vec<Decl>, ext: &mut Vec<(String, String, usize)>) {
-    let all = [VKind::Unit, VKind::Tuple1, VKind::Tuple2, VKind::Struct, VKind::StructEvolved, VKind::TupleEvolved, VKind::Transient];
+    let all = [
+        VKind::Unit,
+        VKind::Tuple1,
+        VKind::Tuple2,
+        VKind::Struct,
+        VKind::StructEvolved,
+        VKind::TupleEvolved,
+        VKind::Transient,
+        VKind::TupleTransientFirst,
+        VKind::StructTransientMid,
+    ];
     let small = [VKind::Unit, VKind::Tuple1, VKind::Struct, VKind::Transient];
     let mut shapes: Vec<Vec<VKind>> = Vec::new();
     for a in all {
@@ -354,6 +381,10 @@ pub fn history_bases() -> Vec<Vec<BaseField>> {
         vec![b("a", Ty::U8), b("b", Ty::Str)],
         vec![b("a", Ty::Str), b("b", opt(Ty::U8))],
         vec![b("a", Ty::U16), b("b", Ty::U8)],
+        // a field that is optional from the start *before* required ones
+        vec![b("a", opt(Ty::U8)), b("b", Ty::U8)],
+        // no field at all: a unit struct / unit variant that later gains fields
+        vec![],
     ]
 }
 
@@ -365,7 +396,10 @@ pub fn history_add_types() -> Vec<(Ty, Val)> {
 fn histories(u: &mut Universe, depth: usize) {
     let bases = history_bases();
     let adds = history_add_types();
-    let all = evo::enumerate("H", &bases[..4], &adds[..2], depth, true);
+    let mut compiled_bases: Vec<Vec<BaseField>> = bases[..4].to_vec();
+    compiled_bases.push(bases[6].clone());
+    compiled_bases.push(bases[7].clone());
+    let all = evo::enumerate("H", &compiled_bases, &adds[..2], depth, true);
     // one declaration per distinct (history prefix); `all` is in pre-order, so a history's
     // prefixes precede it
     let mut by_steps: HashMap<(Vec<BaseField>, Vec<HStep>), String> = HashMap::new();
@@ -396,6 +430,43 @@ fn histories(u: &mut Universe, depth: usize) {
         u.hist_decl.push(names);
     }
     // only maximal histories are needed for the (w, r) sweep; keep them all (prefixes are cheap)
+}
+
+/// the constructors of an enum evolve like structs do: one enum per version of some histories,
+/// whose first constructor is the history's declaration at that version (a unit variant when the
+/// declaration has no field, a struct variant otherwise)
+fn variant_histories(u: &mut Universe) {
+    let mut picked = 0;
+    for hi in 0..u.histories.len() {
+        let h = u.histories[hi].clone();
+        // histories that start from nothing or from one field and only add / make optional
+        let simple = h.steps.iter().all(|s| matches!(s, HStep::Add { first: false, .. } | HStep::MakeOptional(_)));
+        if !(h.base.len() <= 1 && h.steps.len() == 2 && simple) {
+            continue;
+        }
+        picked += 1;
+        if picked > 12 {
+            break;
+        }
+        let mut names = Vec::new();
+        for k in 0..=h.steps.len() {
+            let mut rd = h.decl_at(k);
+            rd.name = "Zed".into();
+            let shape = if rd.fields.is_empty() && rd.steps.is_empty() { 0 } else { 2 };
+            let name = format!("VH{}V{}", hi, k);
+            let ed = EnumDescr {
+                name: name.clone(),
+                sorted: false,
+                variants: vec![
+                    VariantDescr { name: "Zed".into(), transient: false, shape, record: rd },
+                    variant(VKind::Tuple1, "Mid"),
+                ],
+            };
+            u.decls.push(Decl { name: name.clone(), ty: Ty::Enum(Arc::new(ed)), tags: vec!["enum", "variant_history"], opt_spelling: 0 });
+            names.push(name);
+        }
+        u.variant_hist.push((hi, names));
+    }
 }
 
 /// large-declaration boundary probes (thorough tier)
@@ -439,6 +510,7 @@ pub fn build(thorough: bool) -> Universe {
     enums(&mut u.decls, &mut ext);
     u.enum_ext = ext;
     histories(&mut u, if thorough { 3 } else { 2 });
+    variant_histories(&mut u);
     if thorough {
         boundary(&mut u.decls);
     }
